@@ -54,6 +54,18 @@ def odd_requests(bolt11):
     # metadata whose length-prefixed reading differs from the plain reading (default_response uses the prefixed one)
     out.append(request(payload(raw_meta=bigsize(0) + tlv([(33001, bolt11.encode())])), phash(0), 5, 100, 50, 1, forward=5))
     out.append(request(payload(raw_meta=tlv([(33001, bolt11.encode())])), phash(0), 5, 100, 50, 1, forward=5, scid="9x9x9"))
+    # payloads that ARE rewritten (metadata readable in the length-prefixed form and naming an invoice or amount),
+    # with other records around the metadata record, duplicates of it, and every BigSize width among the types
+    pre = bigsize(0)
+    metas = [pre + tlv([(33001, b"x")]), pre + tlv([(33003, tu64(5))]), pre + tlv([(1, b"a"), (33001, bolt11.encode())]), bigsize(200) + tlv([(33003, b"")])]
+    extras = [[], [(65537, b"zz")], [(253, b"\x01"), (2**32 + 5, b""), (2**64 - 1, b"\xff" * 3)], [(16, b"\x00"), (17, b"q")], [(300, bytes(300))]]
+    for m in metas:
+        for ex in extras:
+            for scid in (None, "1x1x1"):
+                s = tlv([(2, tu64(1000))] + [(16, m)] + ex)
+                out.append(request(bigsize(len(s)) + s, phash(0), 5, 100, 50, 1, forward=5, scid=scid))
+                s2 = tlv(ex[:1] + [(16, m)] + ex[1:])
+                out.append(request(bigsize(len(s2)) + s2, phash(0), 5, 100, 50, 1, forward=5, scid=scid))
     return out
 
 def gen(tier, seed, binary):
